@@ -184,6 +184,8 @@ struct Engine {
   virtual const char *name() const = 0;
   virtual Plan gen(const GenCfg &) = 0;
   virtual void prepare(const Plan &) {}           // warm caches (outside the isolated child)
+  // the plan a run is replaced by when producing its corpus killed the probe process (corpus.hpp): nothing but the offending link
+  virtual Plan refcrash_plan(const GenCfg &c, const Rec &link) { Plan p; p.add("meta").set("prop", c.prop).setu("seed", c.seed).set("mode", "refcrash"); Rec &a = p.add("link"); a = link; a.type = "link"; return p; }
   virtual Outcome exec(const Plan &) = 0;         // one simulated run; returns verdict
   // one-step simplifications other than dropping droppable records, most aggressive first
   virtual std::vector<Plan> simplify(const Plan &) { return {}; }
